@@ -553,6 +553,26 @@ def cause_of_invalid(nb, changes):
     return "none"
 
 
+def lines_outside(text):
+    """the lines that are neither in a definition header nor in a docstring (None when `text` is not Python)"""
+    try:
+        t = ast.parse(text)
+    except (SyntaxError, ValueError):
+        return None
+    h, d = header_and_doc_lines(text, t)
+    return [(i, l) for i, l in enumerate(text.split("\n"), 1) if i not in h and i not in d]
+
+
+def cause_of_line_diff(src, nb, changes):
+    """Apply the changes one after the other: the first one after which the lines clause fails is the cause."""
+    want = [l for _, l in lines_outside(src)]
+    for k in range(1, len(changes) + 1):
+        got = lines_outside(text_with(nb, changes, k))
+        if got is not None and [l for _, l in got] != want:
+            return _first_flag(changes[k - 1]["flags"])
+    return "none"
+
+
 def cause_for_def(changes, name, lineno, body: bool):
     """flags of the changes made to one definition: of its docstring slot when its body differs, of its header otherwise"""
     fl = []
@@ -589,7 +609,11 @@ def oracle(src: str, r: dict):
     eb, ea = erase(ast.parse(src)), erase(ast.parse(after))
     if ast.dump(eb) != ast.dump(ea):
         for field, path, lineno, resynth in ast_diff(eb, ea):
-            cause = "header-resynth" if resynth else (cause_for_def(changes, path[-1], lineno, field in ("statements", "definitions")) if path else "none")
+            if field == "definitions":
+                # a definition vanished / appeared: only a header rewrite that cut at the wrong parenthesis / arrow can do that
+                cause = _first_flag([f for c in changes if c["what"] == "header" for f in c["flags"] if f in ("wrong-open-paren", "stray-arrow")])
+            else:
+                cause = "header-resynth" if resynth else (cause_for_def(changes, path[-1], lineno, field == "statements") if path else "none")
             fails.append(({"clause": "ast-erase", "field": field, "cause": cause},
                           "syntax tree differs after erase: %s of %s" % (field, ".".join(path) if path else "<module>")))
     cb, ca = comments_of(src), comments_of(after)
@@ -601,8 +625,7 @@ def oracle(src: str, r: dict):
     la = [(i, l) for i, l in enumerate(after.split("\n"), 1) if i not in ha and i not in da]
     if [l for _, l in lb] != [l for _, l in la]:
         k = next((i for i, (x, y) in enumerate(zip(lb, la)) if x[1] != y[1]), min(len(lb), len(la)))
-        ln = la[k][0] if k < len(la) else (la[-1][0] if la else 1)
-        fails.append(({"clause": "lines", "cause": cause_at_line(changes, ln)},
+        fails.append(({"clause": "lines", "cause": cause_of_line_diff(src, r["nodes_before"], changes) if changes else "none"},
                       "line outside headers/docstrings differs: %r -> %r" % ([l for _, l in lb[k:k + 2]], [l for _, l in la[k:k + 2]])))
     return fails
 
@@ -654,6 +677,9 @@ WITNESSES = [
     ("w-ret-paren", [], "def f(a) -> T[()]:\n" + REST_DOC + "    pass\n", ("rest", True, None), "def f(a: int) -> T[()]:"),
     ("w-stray-arrow", ["C07-stray-arrow"], 'def f(a) -> "g(x) -> y":\n' + REST_DOC + "    pass\n", ("rest", True, None), 'def f(a: int) -> y":'),
     ("w-deco-paren", ["C07-wrong-open-paren"], "@dec(1) \ndef g(a):\n" + REST_DOC + "    pass\n", ("rest", True, None), "@dec(a: int):"),
+    ("w-two-defs-one-node", ["C07-wrong-open-paren-definitions", "C07-wrong-open-paren-lines"],
+     '@cache\ndef f1(\n    path_to,\n    n_items,\n) -> "Forward": ...  # stub\n@dec  #no space\nasync def f2(dataset_name, verbose=os.sep, *args: int):\n  """ """\n  import os\n',
+     ("google", True, None), None),
     ("w-header-comment", ["C07-resynth-comment"], "def f(\n    a,  # first\n):\n" + REST_DOC + "    pass\n", ("rest", True, None), "def f(a: int):"),
     ("w-tail-comment", ["C07-tail-invalid"], "def g(a):  # c\n    return a\n", ("rest", False, None), None),
     ("w-tail-docstring", ["C07-tail-statements", "C07-tail-lines"], 'def g(a):  # c\n  """Doc.\n\n  :param a: the a\n  :type a: ```int```\n  """\n  return a\n',
